@@ -38,7 +38,7 @@ def gen_c01(rng, tier):
 
 
 def gen_c02(rng, tier):
-    return gen2.gen_c02(rng, tier, B(tier, 350, 6000), B(tier, 300, 1296))
+    return gen2.gen_c02(rng, tier, B(tier, 350, 8000), B(tier, 300, 2304))   # thorough: all 48 x 48 two-call histories
 
 
 def gen_c03(rng, tier):
@@ -65,7 +65,7 @@ def gen_c07(rng, tier):
 
 
 def gen_c08(rng, tier):
-    return gen2.gen_c08(rng, B(tier, 500, 8000))
+    return gen2.gen_c08(rng, B(tier, 500, 8000)) + gen2.gen_overflow_block(rng, B(tier, 60, 600))
 
 
 def gen_c09(rng, tier):
@@ -111,7 +111,7 @@ def gen_c17(rng, tier):
             gen2.gen_c02(rng, tier, k, k) + gen2.gen_c03(rng, k) + gen2.gen_c06(rng, k) + gen2.gen_c07(rng, k) +
             gen2.gen_c08(rng, k) + gen2.gen_c09(rng, k) + gen2.gen_c10(rng, k) + gen2.gen_c11(rng, k) +
             gen2.gen_c18(rng, k) + gen2.gen_c19(rng, k) + gen2.gen_c20(rng, k))
-    return gen2.across_domains(base, rng, per=B(tier, 2, 8))
+    return gen2.across_domains(base, rng, per=B(tier, 2, 8)) + gen2.gen_overflow_block(rng, B(tier, 60, 600))
 
 
 def gen_c18(rng, tier):
@@ -132,7 +132,7 @@ A_UTIL = "staircase/util/__init__.py"
 
 PROPS = {
     "C01": PropCheck(gen_c01, anchors=[OPS + "arithmetic.py", OPS + "common.py", OPS + "rops.py", A_UTIL, A_STAIRS]),
-    "C02": PropCheck(gen_c02, anchors=["staircase/core/layering.py", A_STAIRS]),
+    "C02": PropCheck(gen_c02, anchors=["staircase/core/layering.py", A_STAIRS], exhaustive=True),
     "C03": PropCheck(gen_c03, mode=dict(normalise=False, closed=True), anchors=["staircase/core/sampling.py", A_STAIRS, A_UTIL]),
     "C04": PropCheck(gen_c04, anchors=[OPS + "relational.py", OPS + "common.py"]),
     "C05": PropCheck(gen_c05, anchors=[OPS + "logical.py", OPS + "common.py"]),
